@@ -111,6 +111,8 @@ def expected_rows(n):
 
 
 class Describe(Harness):
+    """packets are real (re-hosted) RawPacketData objects with SYMBOLIC header bytes and data, so that two packets of the file may be
+    byte-identical: a listing must still show each of them"""
     kind = "describe"
 
     def run(self, ctx):
@@ -119,7 +121,13 @@ class Describe(Harness):
         N = self.job["params"]["N"]
         n = ctx.choose("n", N + 1)
         rec = Recorder()
-        saved, tokens = patched_cli(cli, n, rec)
+        pk = []
+        for k in range(n):
+            bs = [z3.BitVec(f"k{k}_{j}", 8) for j in range(7)]
+            bs[4], bs[5] = 0, 0
+            pk.append(self.lib.RawPacketData(bv.SymBytes(bs)))
+        saved, _ = patched_cli(cli, 0, rec)
+        cli.ccsds_generator = lambda f, **kw: iter(pk)
         try:
             try:
                 cli.describe_packets.callback(Path(self.empty))
@@ -128,17 +136,15 @@ class Describe(Harness):
                 exc = type(e).__name__
         finally:
             restore(cli, saved)
-        got = []
-        for r in rec.rows:
-            if all(c == "..." for c in r):
-                got.append("...")
-            else:
-                got.append(int(r[5]))
-        want = expected_rows(n)
-        obl = [("no exception", exc is None), (f"n={n}: rows are {want}, got {got}", got == want)]
+        cells = [tuple(str(v) for v in p.header_values) for p in pk]
+        ks = expected_rows(n)
+        want = [cells[k] if k != "..." else ("...",) * 7 for k in ks]
+        got = [tuple(r) for r in rec.rows]
+        got_idx = [("..." if all(c == "..." for c in r) else next((k for k in range(n) if cells[k] == r), "?")) for r in got]
+        obl = [("no exception", exc is None), (f"n={n}: rows are packets {ks}, got {got_idx}", got == want)]
         if n == 0:
             obl.append(("empty file reported", any("No packets" in str(x) for x in rec.printed)))
-        return result(f"n{n}", obl, observe={"rows": got, "exc": exc, "cls": "ran"}, inputs={"n": n})
+        return result(f"n{n}", obl, observe={"rows": len(got), "exc": exc, "cls": "ran"}, inputs={"n": n, "packets": [bv.SymBytes(p.items) for p in pk]})
 
 
 class Parse(Harness):
@@ -182,11 +188,12 @@ class Twin(Parse):
 
 
 def make(job):
-    bv.install(64)
+    lib = bv.install(128)
     h = {"describe": Describe, "parse": Parse, "twin": Twin}[job["h"]](job)
     fd, path = tempfile.mkstemp(prefix="spv_c19_")
     os.close(fd)
     h.empty = path
+    h.lib = lib
     import atexit
     atexit.register(lambda: os.path.exists(path) and os.unlink(path))
     return h
@@ -212,14 +219,18 @@ MINI = b"""<?xml version='1.0' encoding='UTF-8'?>
 <xtce:ParameterRefEntry parameterRef="MARK"/></xtce:EntryList></xtce:SequenceContainer></xtce:ContainerSet></xtce:TelemetryMetaData></xtce:SpaceSystem>"""
 
 
-def real_cli(kind, n, i=None):
+def real_cli(kind, n, i=None, blobs=None):
     from click.testing import CliRunner
     from space_packet_parser import cli, packets
     with tempfile.TemporaryDirectory(prefix="spv_c19_") as d:
         pf, xf = os.path.join(d, "p.bin"), os.path.join(d, "x.xml")
         with open(pf, "wb") as f:
-            for k in range(n):
-                f.write(packets.create_ccsds_packet((7000 + k).to_bytes(2, "big"), apid=100 + k, sequence_count=k))
+            if blobs is not None:
+                for b in blobs:
+                    f.write(b)
+            else:
+                for k in range(n):
+                    f.write(packets.create_ccsds_packet((7000 + k).to_bytes(2, "big"), apid=100 + k, sequence_count=k))
         open(xf, "wb").write(MINI)
         runner = CliRunner()
         if kind == "describe":
@@ -230,18 +241,29 @@ def real_cli(kind, n, i=None):
     return r.output, exc
 
 
+def header_tuple(b):
+    bits = "".join(f"{x:08b}" for x in b)
+    f = lambda a, n: int(bits[a:a + n], 2)
+    return [f(0, 3), f(3, 1), f(4, 1), f(5, 11), f(16, 2), f(18, 14), len(b) - 7]
+
+
+def real_rows(blobs):
+    out, exc = real_cli("describe", len(blobs), blobs=blobs)
+    rows = []
+    for line in out.splitlines():
+        cells = [c.strip() for c in re.split(r"[\u2502\u2503|]", line) if c.strip()]
+        if len(cells) == 7 and all(re.fullmatch(r"\d+", c) for c in cells):
+            rows.append([int(c) for c in cells])
+        elif len(cells) == 7 and all(c in ("...", "\u2026") for c in cells):
+            rows.append("...")
+    return rows, exc
+
+
 def concrete(req):
     i = req["input"]
     if req["kind"] == "describe":
-        out, exc = real_cli("describe", i["n"])
-        rows = []
-        for line in out.splitlines():
-            cells = [c.strip() for c in re.split(r"[│┃|]", line) if c.strip()]
-            if len(cells) == 7 and all(re.fullmatch(r"\d+", c) for c in cells):
-                rows.append(int(cells[5]))
-            elif len(cells) == 7 and all(c in ("...", "…") for c in cells):
-                rows.append("...")
-        return {"cls": "ran", "rows": rows, "exc": exc}
+        rows, exc = real_rows([bytes.fromhex(p["hex"]) for p in i["packets"]])
+        return {"cls": "ran", "rows": len(rows), "exc": exc, "row_list": rows}
     out, exc = real_cli("parse", i["n"], i["i"])
     m = re.search(r"'MARK':\s*(\d+)", out)
     multi = len(re.findall(r"'MARK':", out))
@@ -254,9 +276,10 @@ def judge(req, got):
         return "error", str(got)[:300]
     i = req["input"]
     if req["kind"] == "describe":
-        want = expected_rows(i["n"])
-        if got["exc"] or got["rows"] != want:
-            return "reproduced", f"spp describe-packets on a file of {i['n']} packets: rows (SEQCNT) {got['rows']} exc={got['exc']}; expected {want}"
+        blobs = [bytes.fromhex(p["hex"]) for p in i["packets"]]
+        want = [header_tuple(blobs[k]) if k != "..." else "..." for k in expected_rows(i["n"])]
+        if got["exc"] or got["row_list"] != want:
+            return "reproduced", f"spp describe-packets on a file with packets {[b.hex() for b in blobs]}: rows {got['row_list']} exc={got['exc']}; expected {want}"
         return "not-reproduced", "rows as specified"
     n, k = i["n"], i["i"]
     if k < 0:
